@@ -72,6 +72,13 @@ def handle (j : Json) : Except String Verdict := do
                    spec := [("C17", "fail"), ("C16", "pass")],
                    sig := s!"C17/validity-not-consulted/{fam}/{targetKind r.ty}", tags := tags,
                    why := s!"read #{k} (idx {r.idx}, {targetKind r.ty}): a container's validity bitmap is inconsistent ({cclass}) but the typed read into a non-Option target never looks at it: {impl.compress.take 200}" }
+        -- an element with start == end beyond the child's length is read as empty: the child is never touched
+        let emptyBeyond := (match sd with | .error (.err "offsets out of range") => true | _ => false) &&
+          (match compareRead m impl with | .agree => true | _ => false)
+        if emptyBeyond then
+          return { agree := true, spec := [("C17", "fail"), ("C16", "pass")],
+                   sig := s!"C17/empty-range-beyond-child/{fam}/{targetKind r.ty}", tags := tags,
+                   why := s!"read #{k} (idx {r.idx}, {targetKind r.ty}): an element whose offsets lie beyond its child ({cclass}) and that the readers find empty (start == end) is returned as empty without an error: {impl.compress.take 200}" }
         return { agree := (match compareRead m impl with | .agree => true | _ => false),
                  spec := [("C17", "fail"), ("C16", "pass")],
                  sig := s!"C17/foreign/{attributeRead fm col r impl}/{fam}/{targetKind r.ty}",
